@@ -33,6 +33,18 @@ PROPS = {
         outside="sequences of > 3 non-ZST elements (same loop body, not re-proved); counts >= 2^14 on the encode side except where C15/C18 reach the prefix; bit sequences spanning >= 2 store words",
         explanation="real Encode::encode_to of each type into a fixed sink vs. the independent SCALE reference encoder, byte for byte, all contents symbolic; every panic/overflow/OOB check on the encode path is a CBMC obligation (no-panic clause).",
     ),
+    "C02": dict(
+        runs=std_runs(2),
+        bounds="scalars/sums/products at full width; sequences with <= 3 symbolic elements (count concrete per query, handed to the decoder as a concrete prefix: rule R2); maps/sets with 1 entry; symbolic 2-byte suffix after every encoding",
+        outside="element-path sequences straddling the 16 KiB window at real scale (see the heavy tier); maps with >= 2 entries on the decode side (C03 thorough covers 2); nesting deeper than 2",
+        explanation="symbolic value -> real encode_to -> append a symbolic suffix -> real decode: Ok, logically equal (floats by bits, heaps as multisets), consumed exactly the encoding, suffix untouched.",
+    ),
+    "C03": dict(
+        runs=std_runs(3),
+        bounds="fixed-shape types: ALL byte strings of symbolic length <= size+1; containers: element count <= 3 (concrete, served as a concrete prefix), ALL payloads of symbolic length <= Lmax+1 (concrete length for String/maps/sets); Vec<u8>/Vec<u16> additionally with a fully symbolic count prefix (all strings <= 5/6 bytes); hostile counts 63 (one-byte prefix) for every container and 2^14, 2^30, 2^32-1, usize::MAX through decode_vec_with_len, over slice and unknown-length inputs",
+        outside="long random strings; maps with >= 3 entries; multi-byte count prefixes in front of element-path containers (the prefix decoder itself is decided for all strings in C04)",
+        explanation="real Decode::decode vs. an independent reference decoder on the same symbolic bytes: same accept/reject, same value, same consumed length, and every accepted input is the reference encoding of the returned value. Totality = no failed CBMC check (panic, unreachable!, overflow, OOB, invalid free) and satisfied unwinding assertions.",
+    ),
     "C04": dict(
         level="model_checking",
         runs=std_runs(4) + [dict(features=["c04"], cfg="nostd", solver="kissat", jobs=8,
@@ -44,5 +56,83 @@ PROPS = {
     ),
 }
 
-HOOK_COMMITS = []
+def simple(n, **kw):
+    d = dict(runs=std_runs(n))
+    d.update(kw)
+    return d
+
+
+PROPS.update({
+    "C06": simple(6,
+        bounds="VecDeque capacity 4: ring states (head h, len n) listed per harness (8 quick / 18 thorough of the 25), element types u8/u16/u32/i64/u128/f32/bool/Option<u8>; Vec/String spare capacity {0,1,7}; maps with 2 concrete or 2 symbolic keys in both insertion orders + insert/remove; lists via push_front/push_back/split_off+append; holders Box/Rc/Arc/&/&&/&mut/Cow/Ref",
+        outside="capacities > 4, histories that reallocate mid-way (fresh state of a larger capacity: same code), bit slices across store words",
+        explanation="representation STATES rather than histories: each state is constructed through the public API with symbolic contents and must encode to the reference encoding of its logical element list; twice-encoding gives identical bytes."),
+    "C07": simple(7,
+        bounds="entry points on every universe type at its smallest non-trivial shape; bulk vs element-wise twin for all twelve primitive element types at 3 elements (encode: array, slice, wrapped VecDeque) and 2 elements (decode: Vec, array) over all payloads of symbolic length",
+        outside="io::Write sink of the std configuration (C20 runs this module's quick slice under std); element-wise twin at real 16 KiB scale",
+        explanation="encode_to(fixed sink) = encode() = encode_to(Vec) = encode_to(dyn Output) = using_encoded, encoded_size = length; containers of primitive P (bulk transmute paths) vs. containers of a hand-written element-wise twin Tw<P> with TYPE_INFO = Unknown."),
+    "C13": simple(13,
+        bounds="every MaxEncodedLen / ConstEncodedLen impl in src/max_encoded_len.rs and src/const_encoded_len.rs at full value width (tuples to 18, arrays to 3), tightness of each bound as a cover witness; encoded_fixed_size() for all ints/floats/bool/arrays; generated derive(MaxEncodedLen) family",
+        outside="types outside the listed universe and the generated family",
+        explanation="symbolic value, real encode_to into a fixed sink: length <= max_encoded_len(); == for ConstEncodedLen; == k when encoded_fixed_size() == Some(k)."),
+    "C14": simple(14,
+        bounds="strict prefixes: symbolic cut point over the whole encoding of a symbolic value per type/shape; concatenation of 3 values of mixed types; decode_all / decode_all_with_depth_limit (symbolic limit) on ALL byte strings of symbolic length <= size+1 for every fixed-shape type",
+        outside="concatenations of more than 3 values (induction from C02's 'consumes exactly its encoding')",
+        explanation="prefix: decode(enc(v)[..k]) is Err for every k < len; concat: three encodings back to back decode value by value and as a tuple; decode_all(b) == decode(b) with nothing left."),
+    "C16": simple(16,
+        bounds="every EncodeLike<B> for A family of src/codec.rs, src/encode_like.rs, src/compact.rs (table in harness/src/c16_like.rs; EncodeLike bound required by the harness so a removed impl breaks the build) at <= 2 elements, all contents",
+        outside="families behind bit-vec/generic-array (self-likes, covered by round trips) and derived EncodeLike for Self (C05)",
+        explanation="for each declared pair: bytes(a) == bytes(conv(a)) and decoding bytes(a) as B yields conv(a) consuming everything."),
+    "C18": simple(18,
+        bounds="DecodeLength::len for EVERY count in u32 (prefix + junk) on all six collections and tuples led by them; all byte strings <= 6; real collections with <= 3 elements; skip vs decode on ALL byte strings of symbolic length <= size+1 for every fixed-shape type and on containers with <= 3 elements",
+        outside="containers with more elements",
+        explanation="len reads exactly the count prefix; T::skip and T::decode on the same bytes agree on success and on the remaining length (both branches of the array skip)."),
+    "C19": simple(19,
+        bounds="ALL byte strings of symbolic length <= size+1 for every fixed-shape type; containers with <= 3 elements; direct read/read_byte sequences of symbolic sizes; one step from an ARBITRARY u64 counter (hook)",
+        outside="-",
+        explanation="count() == bytes the wrapped slice delivered, after success and after failure; failed reads add nothing; saturation at u64::MAX; forwarders transparent."),
+})
+
+GEN_DERIVE = [["python3", "tools/gen_derive.py"]]
+PROPS["C13"]["pre"] = GEN_DERIVE
+PROPS["C07"]["pre"] = GEN_DERIVE
+PROPS.update({
+    "C05": simple(5, pre=GEN_DERIVE,
+        bounds="generated family G (tools/gen_derive.py: ~40 definitions quick, ~53 thorough; shapes unit/tuple/named x 0..4 fields x {none, skip, compact, encoded_as} x field types x enums with index attribute / discriminant / position / skip incl. all-variants-skipped, repr(transparent), single-field forwarders) plus hand-written generic / CompactAs / nested members; every definition decided over ALL its values (encode, round trip) and ALL byte strings up to max length + 1 (decode; the index byte ranges over all 256 values)",
+        outside="definitions outside G (nesting depth > 2, lifetimes, custom bounds attributes, > 5 variants); the programs axis is enumeration by construction (a macro runs on program text)",
+        explanation="each definition and its reference encoder/decoder are emitted from ONE abstract description, so the oracle does not go through the macro: real derived encode == layout, decode inverts it and fills skipped fields with Default, unknown index byte rejected, skipped variants encode to nothing and terminate (unwinding assertions)."),
+    "C08": dict(runs=std_runs(8) + [dict(features=["c08"], cfg="std", jobs=8, filters={"quick": ["c08q_ioreader"], "thorough": ["c08q_ioreader", "c08t_ioreader", "c08q_in_tup3", "c08q_in_vec_opt_2", "c08q_bytes"]})],
+        bounds="ALL byte strings of symbolic length <= size+1 for every fixed-shape type; containers with <= 3 elements; input stacks: &[u8], unknown-length, CountedInput / depth-limit(u32::MAX) / mem-limit(usize::MAX) in every order the API allows up to depth 3, decode_from_bytes incl. zero-copy Bytes, IoReader over a reader delivering symbolic-size short chunks (std configuration)",
+        outside="I/O errors other than EOF from a reader",
+        explanation="the same symbolic bytes decoded through every input stack: identical Ok/Err, equal values, equal bytes consumed."),
+    "C09": dict(runs=std_runs(9, stubbing=True),
+        bounds="hostile counts (63 through a one-byte prefix for every container; 2^14, 2^30, 2^32-1, usize::MAX/8 through decode_vec_with_len) at outer and inner nesting positions, <= 9 payload bytes, slice-like and unknown-length inputs; allowance per harness: 64 B (+ k x input) on slice-like inputs, 16 KiB + 64 B per nesting level on unknown-length / element-path inputs",
+        outside="counts/lengths beyond the shapes; allocation alignment (not modelled by Kani); payloads of 64 KiB",
+        explanation="std's allocation entry points are replaced (-Z stubbing) by stateless versions asserting size <= allowance and delegating to Kani's allocator model, so EVERY heap request made while decoding is checked; self-tests and a negative twin prove the assertion is live; no-stub twins guard against stub artefacts.",
+        assumptions=["stubs: alloc::alloc::{alloc, alloc_zeroed, realloc, realloc_nonnull} -> allowance-asserting versions delegating to __rust_alloc/__rust_alloc_zeroed/__rust_realloc"]),
+    "C10": simple(10,
+        bounds="[T;N] N<=4, Box<T>, Box<[T;3]>, Rc/Arc<[T;2]>, Vec (<=3), VecDeque, tuples, nested arrays, Vec of arrays, derived struct/enum, repr(transparent) newtypes (array, boxed): symbolic failing element x symbolic truncation; LinkedList/BTreeMap/BTreeSet (<=2): concrete failing index and length, enumerated; failure kinds: input exhausted, malformed element, depth-limit and mem-limit errors (symbolic limits)",
+        outside="panic in an element decoder (Kani models panic as abort: unwinding is not executed); N up to 40 (same loop body)",
+        explanation="ledger element type: every construction and drop is recorded and asserted (built exactly once, dropped exactly once, nothing leaked), while CBMC checks double free / use of dead objects / dealloc layout on every pointer operation of the real decode paths (Box::decode_wrapped raw alloc, array State guard, repr(transparent) casts)."),
+    "C11": simple(11,
+        bounds="all byte strings up to the listed lengths x symbolic limit 0..=8 for Box/Rc/Arc nests to depth 3, Vec/VecDeque/LinkedList/BTreeMap/BTreeSet/BinaryHeap with <= 2 elements, siblings (tuple, array), recursive derived Tree (<= 6 bytes) and List; one inductive step of the real depth tracker from an ARBITRARY (depth, max) state and decode-from-any-state == fresh decode with budget max-depth (source hook)",
+        outside="recursion through Vec<Self> (times out at 3 bytes); actual stack consumption on 10^6-deep input (no stack model): decided only in the proxy form 'recursion is cut at depth max+1'",
+        explanation="r1 = decode_with_depth_limit(lim) vs r0 = decode on the same bytes: r1 Ok => equal; r0 Err => r1 Err; r0 Ok(v) => (r1 Ok <=> lim >= model depth(v)), which is also monotonicity."),
+    "C12": simple(12,
+        bounds="tracker arithmetic for 3 announcements of arbitrary usize sizes under an arbitrary limit (inductive step from any state); threshold on all byte strings of the listed lengths x limit over ALL usize for Box/Rc/Arc, Vec (bulk and element path), VecDeque, String, LinkedList, BTreeMap/Set (1-2 entries), tuples; hook arguments for EVERY count in u32 (decode aborted at the first announcement)",
+        outside="values larger than the shapes; derived types beyond the generated family",
+        explanation="U = usage recorded by a logging input on the unlimited decode; decode_with_mem_limit(L): Ok => same value; fails only if L <= U; succeeds if L > U; U >= model heap bytes of the value; U == 0 for heap-free values."),
+    "C15": simple(15,
+        bounds="prefix arithmetic for EVERY old count in u32 and batch sizes {0..3} u {2^32-4 ..} via zero-sized items (Vec and VecDeque targets); payload preservation for old <= 2 and batch <= 2 symbolic items of u8/u32/Option/Vec<u8>/String/Compact; 63->64 with a 63-byte symbolic payload; garbage prefixes: all strings <= 5 bytes; two appends == one append",
+        outside="payload-carrying vectors at the 2^14 and 2^30 boundaries (the copy is one extend_from_slice independent of the count)",
+        explanation="real EncodeAppend::append_or_new vs. the reference encoding of the concatenated sequence; an iterator with a symbolic length whose next() asserts it is never called when the combined count is unrepresentable."),
+    "C17": dict(level="other", runs=std_runs(17), pre=[["python3", "tools/lift_constfn.py"]], post="c17",
+        level_text="Reduced claim. Solver part: the index-validity kernel (search_for_invalid_index / duplicate_info) is lifted verbatim from the REAL macro expansion on every run and decided by Kani over all usize index arrays of size 1..5; translation validation: the lifted `indices` tables equal attribute > discriminant > position-among-non-skipped for 5 template enums and the guarded panic blocks exist in both the Encode and Decode expansion; validation against the real compiler: 20 twin programs (faulty / minimally different valid) must be rejected / accepted. The compile-outcome clauses for arbitrary programs are outside what a solver over program text can decide.",
+        technique="Kani/CBMC on the const-fn kernel lifted from the real macro expansion + translation validation of the lift + twin programs compiled against /repo",
+        bounds="kernel: all usize index arrays of size 1..=5",
+        outside="256-variant cap, and 'every fault-free definition compiles' for arbitrary definitions: outcomes of compiling concrete programs (only the 20 twins are compiled)",
+        explanation="C17 quantifies over programs; the accept/reject decision is taken by rustc running the proc-macro on program text and by its const evaluator on literal indices. Decided here: the kernel that carries the logic (solver, all index arrays up to 5 variants), its faithful extraction (translation validation), and agreement of 20 concrete twin programs with the real compiler."),
+})
+
+HOOK_COMMITS = ["9ece5a5"]
 NOT_APPLICABLE = {}
